@@ -48,6 +48,23 @@ def jvp_check(ctx, name, f, x, tol_fd, tol_model=None, model=None, cls=None, h=N
         return
     v = torch.tensor(np.array([rng.gauss(0, 1) for _ in range(x.numel())]).reshape(tuple(x.shape)), dtype=x.dtype)
     ad = float((g * v).sum())
+    # the learned quantity held the way torch.nn.Module / torch.optim hold it: a torch.nn.Parameter with the same values gets the same gradient
+    try:
+        xp = torch.nn.Parameter(x.detach().clone())
+        yp = f(xp)
+        objp = (yp.real * w).sum() + ((yp.imag * (w * 0.7 + 0.1)).sum() if yp.is_complex() else 0.0)
+        gp = torch.autograd.grad(objp, xp, allow_unused=True)[0] if objp.requires_grad else None
+    except Exception as e:
+        gp = e
+    ctx.count('entry_as_parameter/' + name)
+    if gp is None or isinstance(gp, Exception):
+        ctx.violation('%s: with the input held as a torch.nn.Parameter (same values) autograd returns %s, with a plain leaf tensor it returns a gradient'
+                      % (name, 'no gradient' if gp is None else repr(gp)), {'entry': name, 'as': 'Parameter'}, dict(cls or {}, entry=name, what='parameter_detached'))
+        return
+    if not torch.allclose(gp, g, rtol=1e-4, atol=1e-6 * float(g.abs().max() + 1e-30), equal_nan=True):
+        ctx.violation('%s: the gradient w.r.t. a torch.nn.Parameter differs from the gradient w.r.t. a plain leaf tensor of the same values (max difference %.3g)'
+                      % (name, float((gp - g).abs().max())), {'entry': name, 'as': 'Parameter'}, dict(cls or {}, entry=name, what='parameter_gradient'))
+        return
 
     def objective(xx):
         yy = f(xx)
